@@ -226,6 +226,9 @@ func (t *tx) expr(e ast.Expr) *Node {
 		}
 		return t.chain(t.expr(e.X), &Node{K: "tok", T: "delim", V: "."}, idn(e.Sel.Name))
 	case *ast.IndexExpr:
+		if t.brk(e.Lbrack, e.Index) {
+			return t.chain(t.expr(e.X), grp("index", lineFirst(t.expr(e.Index))))
+		}
 		return t.chain(t.expr(e.X), grp("index", t.expr(e.Index)))
 	case *ast.IndexListExpr:
 		return t.chain(t.expr(e.X), grp("types", t.exprsAt(e.Indices, e.Lbrack)...))
@@ -236,6 +239,9 @@ func (t *tx) expr(e ast.Expr) *Node {
 		}
 		if e.High != nil {
 			items[1] = t.expr(e.High)
+			if e.Low != nil && t.brk(e.Low.End(), e.High) {
+				items[1] = lineFirst(items[1])
+			}
 		}
 		if e.Slice3 {
 			items = append(items, t.expr(e.Max))
@@ -244,6 +250,9 @@ func (t *tx) expr(e ast.Expr) *Node {
 	case *ast.TypeAssertExpr:
 		if e.Type == nil {
 			return t.chain(t.expr(e.X), grp("assert", stm(kwn("type"))))
+		}
+		if t.brk(e.Lparen, e.Type) {
+			return t.chain(t.expr(e.X), grp("assert", lineFirst(t.expr(e.Type))))
 		}
 		return t.chain(t.expr(e.X), grp("assert", t.expr(e.Type)))
 	case *ast.CallExpr:
@@ -629,13 +638,21 @@ func realImportName(path string) string {
 
 // TranslateFile turns one Go source file into a File history and the facts to compare the output with.
 func TranslateFile(fn string, src []byte) (h []Action, info *SourceInfo, err error) {
+	return TranslateFileMode(fn, src, -1)
+}
+
+// mode: bit 0 = operator expressions as one fluent chain, bit 1 = the source's line breaks kept as Line(); -1: chosen per file
+func TranslateFileMode(fn string, src []byte, mode int) (h []Action, info *SourceInfo, err error) {
+	if mode < 0 {
+		mode = len(src) % 4
+	}
 	fs := token.NewFileSet()
 	af, perr := parser.ParseFile(fs, fn, src, parser.ParseComments)
 	if perr != nil {
 		return nil, &SourceInfo{Skip: "does not parse"}, nil
 	}
 	info = &SourceInfo{Pkg: af.Name.Name, Imports: map[impSpec]bool{}}
-	t := &tx{imports: map[string]string{}, used: map[string]bool{}, flat: len(src)%2 == 1, layout: (len(src)/2)%2 == 1, fs: fs}
+	t := &tx{imports: map[string]string{}, used: map[string]bool{}, flat: mode&1 == 1, layout: mode&2 == 2, fs: fs}
 	a := Action{A: "New", Name: af.Name.Name}
 	h = []Action{a}
 	seenPath := map[string]string{}
@@ -895,48 +912,58 @@ func cmdCorpus(args []string) {
 		} else if args[2] != "" && strings.HasPrefix(fn, args[2]) {
 			rel = "corpus" + fn[len(args[2]):]
 		}
-		h, info, terr := TranslateFile(fn, src)
-		tw.Stats["files_seen"]++
-		if terr != nil {
-			tw.Stats["translator_gaps"]++
-			tw.Distinct("translator_gap_kinds", terr.Error())
-			continue
+		// the vendored corpus is translated in all four ways (nested / fluent operands x layout dropped / kept), every
+		// other file in the way its length selects
+		modes := []int{-1}
+		if strings.HasPrefix(rel, "corpus") {
+			modes = []int{0, 1, 2, 3}
 		}
-		if info.Skip != "" {
-			tw.Stats["skipped: "+info.Skip]++
-			continue
+		for _, mode := range modes {
+			func() {
+				h, info, terr := TranslateFileMode(fn, src, mode)
+				tw.Stats["files_seen"]++
+				if terr != nil {
+					tw.Stats["translator_gaps"]++
+					tw.Distinct("translator_gap_kinds", terr.Error())
+					return
+				}
+				if info.Skip != "" {
+					tw.Stats["skipped: "+info.Skip]++
+					return
+				}
+				id++
+				h[0].SrcInfo = info
+				h[0].SrcName = rel
+				h[0].Light = every == 0 || id%every != 0 || len(src) > 60000
+				if !h[0].Light {
+					tw.Stats["files_compared_with_model"]++
+				}
+				if len(args) > 7 && args[7] != "" && info.Known != "" {
+					return // a file that triggers a known finding of C01 is no reference for the variants
+				}
+				if len(args) > 7 && args[7] != "" {
+					// program-level variant: the unchanged execution first (its renderings are the reference), then the variant
+					hv, vi := MakeVariant(args[7], h, seedFromEnv()*7919+int64(i))
+					baseF := safelyBytes(func() []byte { return RunHistory(h, false) })
+					baseR := safelyBytes(func() []byte { return RunHistory(h, true) })
+					if baseF == nil || baseR == nil || !bytes.HasPrefix(baseF, []byte("nil\n")) || !bytes.HasPrefix(baseR, []byte("nil\n")) {
+						tw.Stats["variant_base_not_renderable"]++ // (a known finding of C01, or a translator gap: nothing to compare with)
+						return
+					}
+					vi.BaseStat, vi.BaseOut, vi.BaseRaw = "nil", baseF[4:], baseR[4:]
+					hv[0].Variant = vi
+					if vi.N == 0 && args[7] != "C14" {
+						tw.Stats["variant_without_injection"]++
+						return
+					}
+					tw.Stats["variant_injections"] += vi.N
+					h = hv
+				}
+				ReplayHistory(tw, id, h)
+				tw.Stats["declarations"] += len(info.Decls)
+				tw.Distinct("files_translated", rel)
+			}()
 		}
-		id++
-		h[0].SrcInfo = info
-		h[0].SrcName = rel
-		h[0].Light = every == 0 || id%every != 0 || len(src) > 60000
-		if !h[0].Light {
-			tw.Stats["files_compared_with_model"]++
-		}
-		if len(args) > 7 && args[7] != "" && info.Known != "" {
-			continue // a file that triggers a known finding of C01 is no reference for the variants
-		}
-		if len(args) > 7 && args[7] != "" {
-			// program-level variant: the unchanged execution first (its renderings are the reference), then the variant
-			hv, vi := MakeVariant(args[7], h, seedFromEnv()*7919+int64(i))
-			baseF := safelyBytes(func() []byte { return RunHistory(h, false) })
-			baseR := safelyBytes(func() []byte { return RunHistory(h, true) })
-			if baseF == nil || baseR == nil || !bytes.HasPrefix(baseF, []byte("nil\n")) || !bytes.HasPrefix(baseR, []byte("nil\n")) {
-				tw.Stats["variant_base_not_renderable"]++ // (a known finding of C01, or a translator gap: nothing to compare with)
-				continue
-			}
-			vi.BaseStat, vi.BaseOut, vi.BaseRaw = "nil", baseF[4:], baseR[4:]
-			hv[0].Variant = vi
-			if vi.N == 0 && args[7] != "C14" {
-				tw.Stats["variant_without_injection"]++
-				continue
-			}
-			tw.Stats["variant_injections"] += vi.N
-			h = hv
-		}
-		ReplayHistory(tw, id, h)
-		tw.Stats["declarations"] += len(info.Decls)
-		tw.Distinct("files_translated", rel)
 	}
 	tw.Close(args[1])
 }
